@@ -29,7 +29,14 @@ fn main() {
             let seed: u64 = arg(&args, "--seed").and_then(|s| s.parse().ok()).unwrap_or(0);
             let out = arg(&args, "--out").expect("--out FILE");
             let mut rng = prng::Rng::new(seed);
-            let cases = gen::generate(prop, &mut rng, &tier);
+            // a generator that consults the code under test must survive its misbehaviour; should one not, say so
+            let cases = match std::panic::catch_unwind(std::panic::AssertUnwindSafe(|| gen::generate(prop, &mut rng, &tier))) {
+                Ok(c) => c,
+                Err(_) => {
+                    println!("HARNESS-GEN-PANIC {}", interp::last_panic());
+                    std::process::exit(5);
+                }
+            };
             let (text, st) = interp::run_cases(&cases, 0);
             let mut f = std::fs::File::create(&out).expect("cannot create output file");
             writeln!(f, "# seed {} tier {} profile {} property {}", seed,
